@@ -191,6 +191,15 @@ def check_d2s(ctx, cls):
     cl = fm[0].data["kwargs"].get("closed")
     if cls.name != "ChangeDetector":
         ctx.check(cl is None or (isinstance(cl, StrV) and cl.s == "left"), rule, f"{cls.name}|closed", fm[0].loc(), "intervals are emitted left-closed", found=repr(cl))
+    # ------------------------------------------------------------ SPEC-EQ
+    if cls.name == "ChangeDetector":
+        spec_equal(ctx, "C05.f SPEC-EQ", "ChangeDetector|dense_to_sparse", fm[0].loc(), keys, "change_points", "changepoints = positions whose label differs from the previous one")
+    if cls.name == "CollectiveAnomalyDetector" and isinstance(arg, ListV) and getattr(arg, "zip_parts", None):
+        spec_equal(ctx, "C05.f SPEC-EQ", "CollectiveAnomalyDetector|dense_to_sparse", fm[0].loc(), [valkey(x) for x in arg.zip_parts[:2]], "collective_intervals", "anomalies = maximal runs of one positive label, [first, last + 1)")
+    if cls.name == "SubsetCollectiveAnomalyDetector" and isinstance(arg, ListV):
+        aps = [e for e in p.events if e.kind == "list_append" and e.data["lst"] is arg and isinstance(e.data["value"], TupleV)]
+        if aps:
+            spec_equal(ctx, "C05.f SPEC-EQ", "SubsetCollectiveAnomalyDetector|dense_to_sparse", aps[0].loc(), [_vkey(x) for x in aps[0].data["value"].items], "subset_intervals", "one anomaly per positive label: (first labelled row, last labelled row + 1, labelled columns)")
     # ------------------------------------------------------------ LABEL-SENSITIVE
     if cls.name == "CollectiveAnomalyDetector":
         ks = " ".join(keys)
@@ -205,6 +214,76 @@ def check_d2s(ctx, cls):
     if cls.name == "SubsetCollectiveAnomalyDetector":
         ks = " ".join(keys)
         ctx.check("unique" in ks, "C05.d LABEL-SENSITIVE", "SubsetCollectiveAnomalyDetector", fm[0].loc(), "one anomaly per distinct label value (iteration over np.unique(labels))", found=ks[:200])
+
+
+def _norm_key(k: str) -> str:
+    import re
+
+    k = re.sub(r"lv\([^)]*\)", "lv", k)
+    # .values and .to_numpy() are the same array
+    k = k.replace(".to_numpy()", ".values")
+    return k
+
+
+def _skeleton(k: str) -> str:
+    """the expression with its comparison operators, signs of additive constants and integer constants blanked out"""
+    import re
+
+    k = _norm_key(k)
+    k = re.sub(r"cmp(<=|>=|==|!=|<|>)", "cmp?", k)
+    k = re.sub(r"(<=|<|==|!=)0(?=\\*')", "?0", k)
+    k = re.sub(r"\[-?\d+\]/\[1\]", "[#]", k)
+    k = re.sub(r"(any|all)ax-?\d+", r"\1ax#", k)
+    k = re.sub(r"(?<![\w.])-?\d+(?![\w.])", "#", k)
+    k = re.sub(r"[+-] #", "± #", k)
+    k = re.sub(r"\[-", "[", k)
+    return k
+
+
+def _vkey(x):
+    """key of a value; a list made from an un-interpreted sequence (.to_list()) is keyed by that sequence"""
+    if isinstance(x, ListV):
+        lo = getattr(x, "list_of", None)
+        if lo is not None:
+            return "list(" + valkey(lo) + ")"
+        if getattr(x, "key", None):
+            return "list(" + str(x.key) + ")"
+        fa = getattr(x, "from_array", None)
+        if fa is not None:
+            return "list(" + valkey(fa) + ")"
+    return valkey(x)
+
+
+def spec_equal(ctx, rule, key, loc, got_keys, specname, what):
+    """Compare the expressions that reach the formatter with the specification spec/dense.py:<specname>, both as the engine
+    normalises them on the same un-interpreted label frame.  Equal: HOLDS.  Same expression skeleton but another
+    comparison operator or constant: VIOLATION (an off-by-one or a flipped test).  Another skeleton: the library computes
+    the positions by an algorithm the specification cannot be matched with - UNDECIDED, not a verdict."""
+    from .common import run_spec, spec_module
+
+    if specname == "subset_intervals":
+        # the specification records one tuple per label in a loop: compare the recorded tuple
+        m = spec_module(ctx.P, "dense")
+        fn = m.functions.get(specname)
+        sx = new_executor(ctx, fmt_summaries(ctx), max_paths=60)
+        sp = [q for q in sx.run_paths(lambda ex: ex.call_function(fn, [OpaqueV("y_dense", {"kind": "frame"})], {}, None, None)) if q.outcome == "return"]
+        aps = [e for e in sp[0].events if e.kind == "list_append"] if sp else []
+        if not aps or not isinstance(aps[0].data["value"], TupleV):
+            raise Undecided("specification dense.subset_intervals records nothing")
+        wk = [_vkey(x) for x in aps[0].data["value"].items]
+    else:
+        want, sx = run_spec(ctx, "dense", specname, lambda ex: [OpaqueV("y_dense", {"kind": "frame"})], fmt_summaries(ctx))
+        wk = [valkey(x) for x in (want.items if isinstance(want, TupleV) else [want])]
+    g = [_norm_key(k) for k in got_keys]
+    w = [_norm_key(k) for k in wk]
+    if g == w:
+        ctx.holds(rule, key, loc, f"{what}: the expressions handed to the formatter equal the specification spec/dense.py:{specname}")
+        return
+    if len(g) == len(w) and [_skeleton(k) for k in g] == [_skeleton(k) for k in w]:
+        i = next(j for j in range(len(g)) if g[j] != w[j])
+        ctx.violation(rule, key, loc, f"{what}: same expression as the specification spec/dense.py:{specname} except for a comparison operator or an integer constant", found=g[i][:300], expected=w[i][:300])
+        return
+    ctx.undecided(rule, key, loc, f"{what}: the positions are computed by an expression of another shape than spec/dense.py:{specname} (not comparable)", found=(g[0] if g else "nothing")[:200])
 
 
 def _position_keys(ex, p, arg):
